@@ -75,7 +75,7 @@ def gen_program(rng, extended):
         spec = {"id": counter[0], "fn": fn, "v": rng.randrange(10), "children": [], "call": "single"}
         spec["script"] = script_for(fn, may_fail)
         if depth < 3 and counter[0] < 7 and rng.random() < 0.6:
-            how = rng.choice(["single", "group", "direct", "cgroup"])
+            how = rng.choice(["single", "group", "direct", "cgroup", "reread"])
             spec["call"] = how
             if how == "cgroup":
                 spec["extra"] = rng.choice([0, 100])
@@ -92,6 +92,8 @@ def gen_program(rng, extended):
                     c["script"] = script_for(gfn, extended)
                 if how == "cgroup":
                     c["bonus"] = rng.choice([0, 0, 10, 20])
+                if how == "reread" and not c["children"]:
+                    c["ret_none"] = rng.random() < 0.5
                 spec["children"].append(c)
         return spec
     return mk(1, True)
